@@ -392,8 +392,10 @@ theorem calc_glue_is_source_lookup_language (name : String) (q : Parsed) :
   matchName_gen name.toList q
 
 /-- the extracted dispatch of `__getattr__`, for every name and every content of the dictionaries: `c…` needs the key in `modulus_keys` and
-is isothermal exactly for suffix `t`, adiabatic otherwise; `s…` is served from `_compliances` for EVERY suffix (the source's test
-`res.group(1) == 't'` can never hold, so `s11t` is the adiabatic compliance rather than an error); anything else AttributeError -/
+is isothermal exactly for suffix `t`, adiabatic otherwise; `s…` needs the key in `_compliances` and is served from it for suffix `s` or none,
+AttributeError for suffix `t` (`_compliances` is the inverse of the ADIABATIC stiffness; before the repair of the source the inner test read
+`res.group(1) == 't'`, never true, and `s11t` returned the adiabatic compliance — that spelling breaks this theorem); anything else
+AttributeError -/
 theorem calc_glue_is_source_lookup_dispatch (hasKey : String → Modulus → Bool) (name : String) :
     resolve regexParts getattrMatchFn getattrBranches hasKey name =
       match matchName regexParts getattrMatchFn name.toList with
@@ -405,7 +407,9 @@ theorem calc_glue_is_source_lookup_dispatch (hasKey : String → Modulus → Boo
             (if q.suf = some 't' then .served "modulus_isothermal" key else .served "modulus_adiabatic" key)
           else .attributeError
         else
-          if hasKey "_compliances" key then .served "_compliances" key else .attributeError :=
+          if hasKey "_compliances" key then
+            (if q.suf = some 't' then .attributeError else .served "_compliances" key)
+          else .attributeError :=
   resolve_gen hasKey name
 
 /-- `c_(res.group(2))` never raises on an accepted name: it is the canonical key of the Voigt pair the digits name -/
@@ -424,7 +428,7 @@ theorem calc_glue_is_source_averages_read {β : Type} (s : Stores β) (hkeys : s
     lookup regexParts getattrMatchFn getattrBranches s ("s" ++ toString p.1 ++ toString p.2)
         = (attrKey p.1 p.2).bind (find s.compliances) := by
   obtain ⟨h1, h2, h3⟩ := names_IJ p hp
-  rw [lookup_c_gen s hkeys _ _ none (by simp) h1, lookup_s_gen s _ _ none h2, h3]
+  rw [lookup_c_gen s hkeys _ _ none (by simp) h1, lookup_s_gen s _ _ none (by simp) h2, h3]
   exact ⟨rfl, rfl⟩
 
 open Classical in
@@ -435,7 +439,7 @@ theorem calc_glue_lookup_suffixes {β : Type} (s : Stores β) (hkeys : s.keys = 
     lookup regexParts getattrMatchFn getattrBranches s name =
       if q.pre = 'c' then
         (if q.suf = some 't' then (if key ∈ s.keys then find s.isothermal key else none) else find s.adiabatic key)
-      else find s.compliances key := by
+      else (if q.suf = some 't' then none else find s.compliances key) := by
   obtain ⟨⟨hp, _, _⟩, _⟩ := (matchName_gen _ q).1 h
   obtain ⟨p, d, sf⟩ := q
   simp only at hp
@@ -462,7 +466,32 @@ theorem calc_glue_lookup_suffixes {β : Type} (s : Stores β) (hkeys : s.keys = 
   · have hsc : ¬ 's' = 'c' := by decide
     dsimp only
     rw [if_neg hsc]
-    exact lookup_s_gen s name d sf h
+    by_cases ht : sf = some 't'
+    · subst ht
+      rw [if_pos rfl]
+      unfold lookup
+      rw [resolve_s_t_gen s.hasKey name d h]
+    · rw [if_neg ht]
+      exact lookup_s_gen s name d sf ht h
+
+/-- **the repaired behaviour of the compliance names**: for every accepted name with prefix `s` — any spelling (`sIJ`, `s_IJ`, `sijkl`, swapped
+indices, trailing newline) — suffix `t` raises AttributeError whatever the dictionaries hold (nothing is reported under an isothermal name: the
+table is the inverse of the adiabatic stiffness), and suffix `s` or none returns the entry of `_compliances` under the canonical key -/
+theorem calc_glue_compliance_names {β : Type} (s : Stores β) (hasKey : String → Modulus → Bool) (name : String) (q : Parsed)
+    (h : matchName regexParts getattrMatchFn name.toList = some q) (hs : q.pre = 's') :
+    (q.suf = some 't' → resolve regexParts getattrMatchFn getattrBranches hasKey name = .attributeError ∧
+        lookup regexParts getattrMatchFn getattrBranches s name = none) ∧
+    (q.suf ≠ some 't' → lookup regexParts getattrMatchFn getattrBranches s name
+        = find s.compliances (keyOfVoigt (canon (pairOfDigits q.digits)))) := by
+  obtain ⟨p, d, sf⟩ := q
+  simp only at hs
+  subst hs
+  refine ⟨fun ht => ?_, fun ht => lookup_s_gen s name d sf ht h⟩
+  simp only at ht
+  subst ht
+  refine ⟨resolve_s_t_gen hasKey name d h, ?_⟩
+  unfold lookup
+  rw [resolve_s_t_gen s.hasKey name d h]
 
 /-! #### `__init__`, wiring -/
 
@@ -531,7 +560,8 @@ example :
     resolve regexParts getattrMatchFn getattrBranches (fun _ _ => true) "c12t" = .served "modulus_isothermal" (keyOfVoigt (1, 2)) ∧
     resolve regexParts getattrMatchFn getattrBranches (fun _ _ => true) "c21" = .served "modulus_adiabatic" (keyOfVoigt (1, 2)) ∧
     resolve regexParts getattrMatchFn getattrBranches (fun _ _ => true) "c_2311s\n" = .served "modulus_adiabatic" (keyOfVoigt (1, 4)) ∧
-    resolve regexParts getattrMatchFn getattrBranches (fun _ _ => true) "s66t" = .served "_compliances" (keyOfVoigt (6, 6)) ∧
+    resolve regexParts getattrMatchFn getattrBranches (fun _ _ => true) "s66s" = .served "_compliances" (keyOfVoigt (6, 6)) ∧
+    resolve regexParts getattrMatchFn getattrBranches (fun _ _ => true) "s_1212t\n" = .attributeError ∧
     resolve regexParts getattrMatchFn getattrBranches (fun _ _ => false) "c11" = .attributeError := by decide
 
 /-- … and names outside the language -/
